@@ -336,6 +336,17 @@ pub fn compare_cells(exp: &ECols, act: &Cols, rows: Option<usize>) -> Option<Str
 			return Some(format!("unexpected columns {}", cell));
 		}
 	}
+	// a frame-end struct without value columns still has one entry per frame row (the number of Frame End
+	// events seen so far = offsets - 1)
+	if let (Some(n), Some(off)) = (act.aux_len.get("end"), &exp.item_off) {
+		let want = match rows {
+			None => off.len() - 1,
+			Some(r) => r,
+		};
+		if (rows.is_none() && *n != want) || *n < want {
+			return Some(format!("end column: {} entries, expected {}", n, want));
+		}
+	}
 	// presence and item offsets: as in `compare`
 	let dummy = ECols {
 		leaves: Default::default(),
@@ -346,6 +357,7 @@ pub fn compare_cells(exp: &ECols, act: &Cols, rows: Option<usize>) -> Option<Str
 		leaves: Default::default(),
 		present: act.present.clone(),
 		item_off: act.item_off.clone(),
+		aux_len: Default::default(),
 	};
 	compare(&dummy, &adummy, &CmpOpts { presence: true, rows, missing_ok_if_empty: false })
 }
